@@ -11,42 +11,40 @@ _T = TypeVar("_T", bound=np.number)
 def axes_to_rotator(z: ArrayLike | None, y: ArrayLike) -> Rotation:
     """Determine the Rotation object that rotates the z-axis to z and the y-axis to y."""
     y0 = _normalize(np.atleast_2d(y))
-    rot_y = _get_align_rotator([[0, 1, 0]], y0)
+    # If y is antiparallel to the y-axis, rotate around the z-axis.
+    rot_y = _get_align_rotator([[0, 1, 0]], y0, fallback_axis=[1, 0, 0])
     if z is None:
         z0 = _extract_orthogonal(y0, np.array([[1, 0, 0]]))
     else:
         z0 = _extract_orthogonal(y0, _normalize(np.atleast_2d(z)))
     z0_trans = rot_y.apply(z0, inverse=True)
-    rot_z = _get_align_rotator([[1, 0, 0]], z0_trans)
+    # The second rotation must not move the y-axis, so that it must be a rotation
+    # around the y-axis even if z is antiparallel to the z-axis.
+    rot_z = _get_align_rotator([[1, 0, 0]], z0_trans, fallback_axis=[0, 1, 0])
     return rot_y * rot_z
 
 
-def _get_align_rotator(src, dst) -> Rotation:
-    """R.apply(src) == dst. Both length must be 1."""
-    if np.all(np.abs(src + dst) < 1e-6):
-        # Cross product cannot be used for antiparallel vectors.
-        dst = np.atleast_2d(dst)
-        # both rotvec_0 and rotvec_1 are orthogonal to dst.
-        rotvec_0 = np.stack([dst[:, 1], -dst[:, 0], np.zeros(dst.shape[0])], axis=1)
-        rotvec_1 = np.stack([dst[:, 2], np.zeros(dst.shape[0]), -dst[:, 0]], axis=1)
-        rotvec = np.where(
-            np.linalg.norm(rotvec_0, axis=1, keepdims=True)
-            > np.linalg.norm(rotvec_1, axis=1, keepdims=True),
-            rotvec_0,
-            rotvec_1,
-        )
-        rotvec /= np.linalg.norm(rotvec, axis=1, keepdims=True)
-        return Rotation.from_rotvec(rotvec * np.pi)
-    elif np.all(np.abs(src - dst) < 1e-6):
-        dst = np.atleast_2d(dst)
-        return Rotation.identity(dst.shape[0])
+def _get_align_rotator(src, dst, fallback_axis) -> Rotation:
+    """
+    R.apply(src) == dst. Both length must be 1.
+
+    Cross product cannot be used for antiparallel vectors. In this case, vectors will
+    be rotated around ``fallback_axis``, which must be orthogonal to ``src``.
+    """
+    dst = np.atleast_2d(dst)
+    src = np.broadcast_to(np.atleast_2d(src), dst.shape)
     cross = np.cross(src, dst)
-    sin = norm = np.sqrt(np.sum(cross**2, axis=1, keepdims=True))
+    sin = np.sqrt(np.sum(cross**2, axis=1, keepdims=True))
     cos = np.sum(src * dst, axis=1, keepdims=True)
     theta = np.arctan2(sin, cos)
 
+    norm = sin.copy()
     norm[norm == 0] = np.inf
-    return Rotation.from_rotvec(cross / norm * theta)
+    rotvec = cross / norm * theta
+    # NOTE: parallel/antiparallel check must be done for each vector.
+    antiparallel = np.all(np.abs(src + dst) < 1e-6, axis=1)
+    rotvec[antiparallel] = np.asarray(fallback_axis, dtype=rotvec.dtype) * np.pi
+    return Rotation.from_rotvec(rotvec)
 
 
 def from_euler_xyz_coords(
